@@ -144,6 +144,10 @@ macro_rules! dispatch {
             "pad_aident" => $obs(text::ascii::ident().padded(), $inp),
             "newline" => $newline,
             "regex" => $obs(chumsky::regex::regex(PATTERNS[r as usize % PATTERNS.len()]), $inp),
+            // the same parser where no output is required of it (`to_slice` / `ignored` run their parser in check mode): what it
+            // consumes must be what the emitting run consumes
+            "regex_c" => $obs(chumsky::regex::regex(PATTERNS[r as usize % PATTERNS.len()]).to_slice(), $inp),
+            "regex_i" => $obs(chumsky::regex::regex(PATTERNS[r as usize % PATTERNS.len()]).ignored().to_slice(), $inp),
             // the same pattern after `k` arbitrary tokens: look-behind assertions (`^`, `\b`, `\B`) must see what precedes the cursor
             "regex_at" => $obs(
                 any()
